@@ -857,7 +857,8 @@ cannot initialise file actions: %s", STRERR);
 	}
 
 	/* spawn the actual beef process */
-	if (posix_spawn(&chld, *args, &fa, NULL, deconst(args), env) < 0) {
+	/* posix_spawn() hands back the error, it is not in errno */
+	if ((errno = posix_spawn(&chld, *args, &fa, NULL, deconst(args), env))) {
 		ECHS_ERR_LOG("cannot spawn `%s': %s", *args, STRERR);
 		rc = -1;
 		t->xc = 127;
@@ -988,7 +989,7 @@ cannot initialise file actions: %s", STRERR);
 		posix_spawn_file_actions_addclose(&fa, STDOUT_FILENO);
 		posix_spawn_file_actions_addclose(&fa, STDERR_FILENO);
 
-		if (posix_spawn(&chld, mailcmd, &fa, NULL, _mcmd, NULL) < 0) {
+		if ((errno = posix_spawn(&chld, mailcmd, &fa, NULL, _mcmd, NULL))) {
 			ECHS_ERR_LOG("\
 cannot spawn `sendmail': %s", STRERR);
 			rc = -1;
